@@ -129,7 +129,7 @@ fn lenient_string_value(s: &str) -> Option<Int> {
 /// The integer a JSON value denotes when used as a numeric field, before any range check.
 pub fn classify_integer(j: &J) -> Class<Int> {
     let o = classify_integer_raw(j);
-    crate::trace::rec("classify_integer", 3000, || (crate::trace::q(&j.to_text()), match &o { Class::Reject => "\"reject\"".into(), Class::Accept(v) | Class::Unc(v) => format!("[\"{}\",\"{}{}\"]", o.name(), if v.neg { "-" } else { "" }, if v.mag.bit_len() > 290 { "huge".to_string() } else { v.mag.to_dec() }) }));
+    crate::trace::rec("classify_integer", 3000, || (crate::trace::q(&j.to_text()), match &o { Class::Reject => "\"reject\"".into(), Class::Accept(v) | Class::Unc(v) => format!("[\"{}\",\"{}{}\"]", o.name(), if v.neg { "-" } else { "" }, if v.mag.bit_len() > 256 { "huge".to_string() } else { v.mag.to_dec() }) }));
     o
 }
 fn classify_integer_raw(j: &J) -> Class<Int> {
